@@ -51,6 +51,7 @@ class PolynomialTrendForecaster(_OptionalForecastingHorizonMixin, _SktimeForecas
         self.degree = degree
         self.with_intercept = with_intercept
         self.regressor_ = None
+        self._fit_start = None
         super(PolynomialTrendForecaster, self).__init__()
 
     def fit(self, y, X=None, fh=None):
@@ -92,6 +93,10 @@ class PolynomialTrendForecaster(_OptionalForecastingHorizonMixin, _SktimeForecas
         # transform data
         n_timepoints = _get_duration(self._y.index, coerce_to_int=True) + 1
         X = np.arange(n_timepoints).reshape(-1, 1)
+        # the regressor is fitted on a zero-based time axis that starts at the first
+        # time point of the data seen in fit; remember it, because `update` without
+        # re-fitting may later put earlier time points in front of `self._y`
+        self._fit_start = self._y.index[0]
 
         # fit regressor
         self.regressor_.fit(X, y)
@@ -123,7 +128,7 @@ class PolynomialTrendForecaster(_OptionalForecastingHorizonMixin, _SktimeForecas
             raise NotImplementedError()
 
         # use relative fh as time index to predict
-        fh = self.fh.to_absolute_int(self._y.index[0], self.cutoff)
+        fh = self.fh.to_absolute_int(self._fit_start, self.cutoff)
         X_pred = fh.to_numpy().reshape(-1, 1)
         y_pred = self.regressor_.predict(X_pred)
         return pd.Series(y_pred, index=self.fh.to_absolute(self.cutoff))
